@@ -216,7 +216,9 @@ func runC04(c *Ctx) {
 		c.check(!bad, "C04.cache-invalidation", "counter change followed by maxIndex = -1 ("+strings.TrimPrefix(render(w.(*ssa.Store).Addr), "&")+")", w.Pos(), "every path to an exit invalidates the cached maximum", "the counters change and add can return without resetting maxIndex: the cached +2/3 candidate goes stale ("+traceString(tr)+")")
 	}
 	// storing a vote => exactly one of counter++ / append, then count++
-	tr, bad := pathAvoiding(add, stMsgs, is(stCountInc), func(in ssa.Instruction) bool { return in == ssa.Instruction(stCtrInc) || in == ssa.Instruction(stAppend) })
+	tr, bad := pathAvoiding(add, stMsgs, is(stCountInc), func(in ssa.Instruction) bool {
+		return in == ssa.Instruction(stCtrInc) || in == ssa.Instruction(stAppend)
+	})
 	c.check(!bad, "C04.bookkeeping", "stored vote is tallied", stMsgs.Pos(), "counter++ or append on every path to count++", "a stored vote reaches count++ without being tallied in a counter: "+traceString(tr))
 	_, both := pathAvoiding(add, stCtrInc, is(stAppend), nil)
 	c.check(!both, "C04.bookkeeping", "stored vote is tallied once", stCtrInc.Pos(), "increment and append are exclusive", "a vote whose decision already has a counter is also appended as a new counter (counted twice)")
